@@ -226,13 +226,36 @@ def _r12h(rep):
     S = [
         (f"{G}._get_dD_analytical", "aug", "ddm_dirs[i]", "dq[j] * ddm[j]", "the directional derivative is not sum_j dq_j dD/dq_j stored for direction i"),
         (f"{G}._perturb_D", "assign", "rot_eigsets", "np.dot(eigsets, eigvecs)", "the degenerate eigenvectors are not rotated by the eigenvectors of e^H dD_0 e"),
-        (f"{G}._symmetrize_group_velocity", "aug", "gv_sym", "np.dot(r_cart, gv.T).T", "the symmetrised velocity is not the sum of R_cart gv"),
         (f"{G}._symmetrize_group_velocity", "ret", None, "gv_sym / len(rotations)", "the sum over rotations is not divided by their number"),
         (f"{G}._symmetrize_group_velocity", "assign", "diff", "(q - np.rint(q)) - np.dot(r, q - np.rint(q))", "the rotations kept are not those with R q = q for q reduced to the first zone"),
         (f"{G}._symmetrize_group_velocity", "assign", "r_cart", "similarity_transformation(self._reciprocal_lattice, r)", "the reciprocal operation is not converted to Cartesian coordinates with the reciprocal lattice"),
     ]
     for qn, kind, target, text, msg in S:
-        sites.check(rep, "R12h", GV, qn, kind, target, text, msg + ": the reported group velocity is not the gradient of the frequency")
+        try:
+            sites.check(rep, "R12h", GV, qn, kind, target, text, msg + ": the reported group velocity is not the gradient of the frequency")
+        except AnalysisError as e_:
+            if not qn.endswith("._symmetrize_group_velocity"):
+                raise
+            # the site-symmetry average may be spelled without the loop these sites describe (a mask over the stack of
+            # operations): its orientation is decided by R12k; the site is listed as not decided
+            rep.unknown(f"R12h: {qn}: {core.norm(str(e_), 140)}")
+    _r12k(rep)
+    # what the average accumulates, entry by entry (any spelling): row b of the addend is R_cart gv[b]
+    from engine import symnp
+    import sympy as _sp
+
+    sg = core.find_def(GV, f"{G}._symmetrize_group_velocity")
+    rc = [st.targets[0].id for st in ast.walk(sg) if isinstance(st, ast.Assign) and isinstance(st.value, ast.Call) and core.src(st.value.func) == "similarity_transformation" and isinstance(st.targets[0], ast.Name)]
+    augs = [a for a in ast.walk(sg) if isinstance(a, ast.AugAssign) and isinstance(a.op, ast.Add) and isinstance(a.target, ast.Name)]
+    gpar = sg.args.args[1].arg
+    if len(rc) != 1 or len(augs) != 1:
+        raise AnalysisError("R12h: _symmetrize_group_velocity no longer accumulates one term per Cartesian operation (similarity_transformation(...) then '+=')")
+    Rm, Gm = symnp.matrix("R", 3, 3), symnp.matrix("g", 2, 3)
+    got = symnp.Evaluator({rc[0]: Rm, gpar: Gm}, where="_symmetrize_group_velocity").ev(augs[0].value)
+    want = [[sum(Rm[i][j] * Gm[b][j] for j in range(3)) for i in range(3)] for b in range(2)]
+    ok_acc = symnp.shape(got) == (2, 3) and all(_sp.expand(got[b][i] - want[b][i]) == 0 for b in range(2) for i in range(3))
+    rep.instance("R12h", GV, f"{G}._symmetrize_group_velocity", f"{core.norm(core.src(augs[0]), 70)} : row b of the addend is R_cart gv[b]", ok_acc,
+                 f"the addend of the site-symmetry average has entry [0][1] = {got[0][1] if symnp.shape(got) == (2, 3) else symnp.shape(got)}, not sum_j R_cart[1][j] gv[0][j]: the velocities are rotated by the transposed (inverse) operation or not at all: the reported group velocity is not the gradient of the frequency", line=augs[0].lineno)
     pd = core.find_def(GV, f"{G}._perturb_D")
     eh = [st for st in ast.walk(pd) if isinstance(st, ast.Assign) and isinstance(st.value, ast.Call) and core.src(st.value.func) == "np.linalg.eigh" and isinstance(st.targets[0], ast.Tuple)]
     ok_eh = len(eh) == 1 and core.src(eh[0].targets[0].elts[1]) == "eigvecs" and symalg.same(symalg.open_expr(core.src(eh[0].value.args[0])), symalg.open_expr("np.dot(eigsets.T.conj(), np.dot(ddms[0], eigsets))"))[0]
@@ -256,6 +279,22 @@ def _r12h(rep):
             ok_pos = ok_pos and len(init) == 1 and core.src(init[0].value) == "0"
     rep.instance("R12h", GV, f"{G}._calculate_group_velocity_at_q", "gv[pos : pos + len(deg)] = perturb(ddms, eigvecs[:, deg]); pos += len(deg)", ok_pos, "the velocities of a degenerate set are not stored at the positions of its bands", line=cq.lineno)
 
+
+
+def _r12k(rep):
+    """The little group of q in the site-symmetry average: operations with R q = q, R acting from the left."""
+    from engine import frames
+    from engine.frames import L as LAT, U as UNK
+
+    rep.rule("R12k", "site-symmetry average of the group velocity: the reciprocal operations are applied to the reduced q-point from the left (frame typing: an operation carries a component index and a basis index of the reciprocal lattice, q a component index; np.dot(q, R) -- also for the whole stack of operations -- is R^T q and selects the operations whose transpose leaves q invariant, which is another set in hexagonal axes and in primitive axes of centred lattices)", 1)
+    fn = core.find_def(GV, "GroupVelocity._symmetrize_group_velocity")
+    qpar = fn.args.args[2].arg if len(fn.args.args) > 2 else "q"
+    ty = frames.Typer(fn, seeds={"self._symmetry.reciprocal_operations": (UNK, LAT("q", "+"), LAT("q", "-"))}, params={qpar: (LAT("q", "+"),)}, call_sigs={}, where=f"{GV}::GroupVelocity._symmetrize_group_velocity")
+    problems = ty.run()
+    if not problems and ty.n_typed < 1:
+        raise AnalysisError("R12k: no product of a reciprocal operation with the q-point could be typed in GroupVelocity._symmetrize_group_velocity")
+    rep.instance("R12k", GV, "GroupVelocity._symmetrize_group_velocity", f"{ty.n_typed} product(s) of reciprocal operations with q typed: R q", not problems,
+                 (problems[0].message if problems else "") + ": the operations kept for the average are those with R^T q = q instead of R q = q; the velocity is averaged over rotations that do not leave q invariant and components of the true gradient are projected out", line=getattr(problems[0].node, "lineno", fn.lineno) if problems else fn.lineno)
 
 
 def _r12i(rep):
@@ -571,6 +610,9 @@ def selftest():
     b("NAC derivative: quotient rule sign", DDMC, "                            (da * b + db * a - a * b * dc / c) /", "                            (da * b + db * a + a * b * dc / c) /", "R12g", "ddnac")
     b("NAC derivative: mass factor dropped", DDMC, "                                a * b / (c * mass_sqrt) * factor;", "                                a * b / c * factor;", "R12g", "dnac")
     b("directional derivative mixes the components", GV, "                ddm_dirs[i] += dq[j] * ddm[j]", "                ddm_dirs[i] += dq[i] * ddm[j]", "R12h", "_get_dD_analytical")
+    b("little group of q selected with q.R for the whole stack", GV, "        rotations = []\n        for r in self._symmetry.reciprocal_operations:\n            q_in_BZ = q - np.rint(q)\n            diff = q_in_BZ - np.dot(r, q_in_BZ)\n            if (np.abs(diff) < self._symmetry.tolerance).all():\n                rotations.append(r)\n\n        gv_sym = np.zeros_like(gv)\n        for r in rotations:\n            r_cart = similarity_transformation(self._reciprocal_lattice, r)\n            gv_sym += np.dot(r_cart, gv.T).T\n\n        return gv_sym / len(rotations)\n", "        q_in_BZ = q - np.rint(q)\n        rec_ops = self._symmetry.reciprocal_operations\n        diffs = np.dot(q_in_BZ, rec_ops) - q_in_BZ\n        is_site_sym = (np.abs(diffs) < self._symmetry.tolerance).all(axis=1)\n\n        gv_sym = np.zeros_like(gv)\n        for r in rec_ops[is_site_sym]:\n            r_cart = similarity_transformation(self._reciprocal_lattice, r)\n            gv_sym += np.dot(gv, r_cart.T)\n\n        return gv_sym / np.count_nonzero(is_site_sym)\n", "R12k", "_symmetrize_group_velocity")
+    n("little group of q selected with R.q for the whole stack", GV, "        rotations = []\n        for r in self._symmetry.reciprocal_operations:\n            q_in_BZ = q - np.rint(q)\n            diff = q_in_BZ - np.dot(r, q_in_BZ)\n            if (np.abs(diff) < self._symmetry.tolerance).all():\n                rotations.append(r)\n\n        gv_sym = np.zeros_like(gv)\n        for r in rotations:\n            r_cart = similarity_transformation(self._reciprocal_lattice, r)\n            gv_sym += np.dot(r_cart, gv.T).T\n\n        return gv_sym / len(rotations)\n", "        q_in_BZ = q - np.rint(q)\n        rec_ops = self._symmetry.reciprocal_operations\n        diffs = np.dot(rec_ops, q_in_BZ) - q_in_BZ\n        is_site_sym = (np.abs(diffs) < self._symmetry.tolerance).all(axis=1)\n\n        gv_sym = np.zeros_like(gv)\n        for r in rec_ops[is_site_sym]:\n            r_cart = similarity_transformation(self._reciprocal_lattice, r)\n            gv_sym += np.dot(gv, r_cart.T)\n\n        return gv_sym / np.count_nonzero(is_site_sym)\n")
+    b("velocities rotated by the transposed operation", GV, "            gv_sym += np.dot(r_cart, gv.T).T", "            gv_sym += np.dot(gv, r_cart)", "R12h", "_symmetrize_group_velocity")
     b("symmetrised velocity not averaged", GV, "        return gv_sym / len(rotations)", "        return gv_sym", "R12h", "_symmetrize_group_velocity")
     b("degenerate set placed one band too far", GV, "            gv[pos : pos + len(deg)] = self._perturb_D(ddms, eigvecs[:, deg])", "            gv[pos + 1 : pos + 1 + len(deg)] = self._perturb_D(ddms, eigvecs[:, deg])", "R12h", "_calculate_group_velocity_at_q")
     b("degeneracy tolerance taken from the velocity cutoff", GV, "        deg_sets = degenerate_sets(freqs)", "        deg_sets = degenerate_sets(freqs, cutoff=self._cutoff_frequency)", "R12i", "degenerate_sets")
